@@ -193,11 +193,13 @@ class Exec:
             return Poly.const(q), Poly.const(r)
         raise AnalysisError(f'{self.label}: division `{src}` is not the recognised division of the file size by the part size')
 
-    def _pick(self, name: str, vals: List[Poly], src: str) -> Poly:
+    def _pick(self, name: str, vals: List[Poly], src: str) -> Any:
         best = vals[0]
         for v in vals[1:]:
-            op = '<=' if name == 'min' else '>='
-            if self.must(op, v, best, f'{src}'):
+            d = self.decide('<=' if name == 'min' else '>=', v, best)
+            if d is None:
+                return Op('expr', src=src)  # not uniform in this case: only an error if somebody needs the value
+            if d:
                 best = v
         return best
 
@@ -404,6 +406,12 @@ class Exec:
                 self.handler_depth += 1
                 try:
                     rh = self.block(h.body)
+                except AnalysisError:
+                    # the handler is an alternative path we cannot follow: whatever it assigns is unknown afterwards
+                    rh = 'fall'
+                    self.env = dict(env0)
+                    for nm in _assigned_names(h.body):
+                        self.env[nm] = Op('conflict', name=nm)
                 finally:
                     self.handler_depth -= 1
                 if rh == 'fall':
@@ -464,6 +472,27 @@ def refute(ex: Exec, op: str, a: Poly, b: Poly, guards: Sequence[Poly] = ()) -> 
     return None
 
 
+def _refutations(ex: Exec, op: str, a: Poly, b: Poly):
+    import operator
+    ia, ib = ex.inst(a), ex.inst(b)
+    f = {'==': operator.eq, '!=': operator.ne, '<': operator.lt, '<=': operator.le, '>': operator.gt, '>=': operator.ge}[op]
+    for pt in witnesses(set(ia.unknowns()) | set(ib.unknowns())):
+        if not f(ia.at(pt), ib.at(pt)):
+            yield pt
+
+
+def _test_at(ex: Exec, loop: ast.While, counter: str, value: Poly) -> Optional[bool]:
+    """Truth of the loop test with the counter bound to `value` (None when not uniform in the current case)."""
+    keep = ex.env.get(counter)
+    ex.env[counter] = value
+    try:
+        return ex.truth(loop.test)
+    except Undecided:
+        return None
+    finally:
+        ex.env[counter] = keep
+
+
 def loop_cases(ex: Exec, loop: ast.While) -> Dict[str, Any]:
     """Analyse `while <test>: <body>` as a byte-copy loop.  Two shapes:
       counted:  a remaining-byte counter n tested by the loop, each iteration reads k bytes and passes them on, n decreases
@@ -501,8 +530,13 @@ def loop_cases(ex: Exec, loop: ast.While) -> Dict[str, Any]:
             info['kind'] = 'eof'
             lv = Poly.var('L')
             ok_stop = ok_pass = True
-            for cname, lsub in (('an empty read (end of file)', ZERO), ('a read of L >= 1 bytes', ONE + Poly.var('l_'))):
-                status, evs, _ = run_body({'L': lsub}, {})
+            bsub = saved_sub.get('B')
+            eof_cases = [('an empty read (end of file)', {'L': ZERO}),
+                         ('a read of 1 <= L < buffer bytes', {'L': ONE + Poly.var('l_'), 'B': Poly.const(2) + Poly.var('l_') + Poly.var('m_')}),
+                         ('a read of L >= buffer bytes', {'B': ONE + Poly.var('b_'), 'L': ONE + Poly.var('b_') + Poly.var('l_')})]
+            for cname, csub_ in eof_cases:
+                lsub = csub_['L']
+                status, evs, _ = run_body(csub_, {})
                 reads = [x for x in evs if x.kind == 'read']
                 sinks = [x for x in evs if x.kind == 'sink']
                 if len(reads) != 1:
@@ -526,7 +560,9 @@ def loop_cases(ex: Exec, loop: ast.While) -> Dict[str, Any]:
                         raise AnalysisError(f'{label}: data is passed on after an empty read (not analysed)')
                 else:
                     good = [s for s in sinks if s.data is buf]
-                    if status not in ('fall', 'continue'):
+                    if not ok_pass:
+                        pass
+                    elif status not in ('fall', 'continue'):
                         ok_pass = False
                         problems.append(('pass', f'on {cname} the loop is left (`{status}`): the rest of the file is never copied'))
                     elif len(good) != 1 or len(sinks) != 1:
@@ -620,6 +656,8 @@ def loop_cases(ex: Exec, loop: ast.While) -> Dict[str, Any]:
                 raise AnalysisError(f'{label}: counter {cn} is not an integer expression after the loop body')
             want_after = nv - buf.L
             d = ex.decide('==', after, want_after)
+            if d is not True and ex.decide('==', want_after, ZERO) is True and _test_at(ex, loop, cn, after) is False:
+                d = True  # everything has been passed on and the loop stops: the exact final value of the counter does not matter
             if d is not True:
                 if not buf.exact:
                     # with a short read the decrement may still be right if the stream always fills the request: contract-dependent
@@ -628,7 +666,13 @@ def loop_cases(ex: Exec, loop: ast.While) -> Dict[str, Any]:
                         raise Undecided(f'{label}: {cn} is decreased by the requested count after `{pf.nsrc(buf.node)}`, which may return fewer bytes; '
                                         'whether that loses bytes depends on the stream implementation, not decided')
                     ex.sub['L'] = csub['L']
-                pt = refute(ex, '==', after, want_after)
+                pt = None
+                for cand in _refutations(ex, '==', after, want_after):
+                    # not a refutation if at this point nothing remains and the loop stops anyway
+                    if ex.inst(want_after).at(cand) == 0 and _test_at(ex, loop, cn, Poly.const(ex.inst(after).at(cand))) is False:
+                        continue
+                    pt = cand
+                    break
                 if pt is None:
                     raise Undecided(f'{label}: {where}: cannot compare the new counter {ex.inst(after)!r} with remaining - bytes passed on {ex.inst(want_after)!r}')
                 fail('decrement', f'{where}: {ex.inst(nv).at(pt)} bytes remaining, {ex.inst(buf.L).at(pt)} passed on, but {cn} becomes {ex.inst(after).at(pt)} '
